@@ -283,6 +283,14 @@ def write_sessions(rng, q):
                 ops = ["write 2 pat:%d:1" % pre, "%s 1 %d none" % (w, op), "%s 1 %d 0a0b" % (w, op), "%s 1 %d none" % (w, 9),
                        "write 1 pat:3:9", "%s 0 1 pat:130:4" % w, "%s 1 0 none" % w, "flush"]
                 cases.append(("case max=1024 waccept=%d" % rng.choice([0, 2]), ops))
+    # a draft payload replaced before the frame is submitted (SetPayload twice), every length class to every length class
+    for w in ("writeframe2", "awriteframe2"):
+        for draft in (0, 5, 100, 125, 126, 300, 70000):
+            ops = []
+            for real in (0, 1, 5, 125, 126, 300):
+                ops.append("%s 1 %d %d pat:%d:%d" % (w, rng.choice([1, 2]), draft, real, rng.randrange(256)))
+            ops.append("flush")
+            cases.append(("case max=100000 waccept=%d" % rng.choice([0, 3]), ops))
     # automatic replies interleaved with writes
     for _ in range(10 if q else 200):
         ops = []
